@@ -108,7 +108,7 @@ func (k *raCase) rules(max int) []raRule {
 	return rs
 }
 
-func newRACase(c *hx.Ctx) *raCase {
+func newRACase(c *hx.Ctx, mapped bool) *raCase {
 	k := &raCase{c: c, fresh: 20000}
 	k.nets = []netip.Prefix{netip.MustParsePrefix("10.77.0.1/24")}
 	if c.Chance(0.4) {
@@ -172,6 +172,14 @@ func newRACase(c *hx.Ctx) *raCase {
 		var as []netip.AddrPort
 		for i, n := 0, 1+c.Intn(3); i < n; i++ {
 			a := k.p.ap()
+			if mapped && a.Addr().Is4() && c.Chance(0.6) {
+				// the IPv4-mapped spelling of an IPv4 literal, sometimes next to the plain one (F20)
+				m := netip.AddrPortFrom(netip.AddrFrom16(a.Addr().As16()), a.Port())
+				if c.Chance(0.3) && !slices.Contains(as, a) {
+					as = append(as, a)
+				}
+				a = m
+			}
 			if !slices.Contains(as, a) {
 				as = append(as, a)
 			}
@@ -544,12 +552,15 @@ func runRemotesAdmit(c *hx.Ctx) {
 	cw := c.NewCaseWriter("From NV Require Import model.RemoteList model.RemotesAdmit corr.RemotesAdmit_corr.", "RemotesAdmit_corr.case", "RemotesAdmit_corr.check_case", 12)
 	var failures []map[string]any
 	for i := 0; i < c.N; i++ {
-		k := newRACase(c)
 		kind := "history"
 		punch := i%4 == 3
 		if punch {
 			kind = "punch"
 		}
+		if i%8 == 5 {
+			kind = "static_mapped"
+		}
+		k := newRACase(c, kind == "static_mapped")
 		k.run(3+c.Intn(10), punch)
 		cw.Add(k.literal(), kind, k.nonEmpty > 0 || k.punches > 0, k.json(kind))
 		if k.failed != "" {
